@@ -17,6 +17,7 @@ import (
 func init() {
 	streams["map"] = func(c *Config) *hx.Stats { return mapStreamX(c, "map", false) }
 	streams["mapcollide"] = func(c *Config) *hx.Stats { return mapStreamX(c, "mapcollide", true) }
+	streams["mpersist"] = func(c *Config) *hx.Stats { return mapStreamX(c, "mpersist", true) }
 }
 
 type mapEnv struct {
@@ -41,6 +42,11 @@ type mapEnv struct {
 	step    int
 	maxKey  uint32
 	maxElem uint32
+	// persistence (C03)
+	persist     bool
+	hasCommit   bool
+	committed   map[hx.TV]hx.TV
+	committedTy hx.TI
 }
 
 func (e *mapEnv) violation(prop, what string) {
@@ -142,14 +148,20 @@ func mapStreamX(cfg *Config, name string, collide bool) *hx.Stats {
 		if T == 0 {
 			T = 256 + uint32(rng.Intn(4000))
 		}
-		e := &mapEnv{w: w, st: st, cfg: cfg, rng: rng, T: T, prog: p}
+		e := &mapEnv{w: w, st: st, cfg: cfg, rng: rng, T: T, prog: p, persist: name == "mpersist"}
 		nOps := 250 + rng.Intn(450)
+		if e.persist {
+			nOps = 150 + rng.Intn(200)
+		}
 		if T >= 16384 {
 			nOps = 200
 		}
 		mode := 0
 		if collide {
 			mode = 1 + rng.Intn(5)
+		}
+		if e.persist {
+			mode = []int{0, 0, 2, 3}[p%4] // a reload needs a digester a fresh handle can rebuild: real, or the same table
 		}
 		runMapProgram(e, nOps, mode, rng.Intn(5), rng.Intn(3))
 		st.Programs++
@@ -247,6 +259,9 @@ func runMapProgram(e *mapEnv, nOps, mode, valProf, opProf int) {
 	}
 
 	for e.step = 0; e.step < nOps; e.step++ {
+		if e.persist && e.persistStep() {
+			continue
+		}
 		k := e.keyUniv[e.rng.Intn(len(e.keyUniv))]
 		_, present := e.shadow[k]
 		r := e.rng.Intn(100)
@@ -520,5 +535,119 @@ func (e *mapEnv) iterate(q int) {
 		return false
 	}) {
 		e.violation("C13", mode+" iteration is not in ascending digest order")
+	}
+}
+
+
+// persistStep: commit / crash / reload for maps (see arrEnv.persistStep).
+func (e *mapEnv) persistStep() bool {
+	w := e.w
+	r := e.rng.Intn(100)
+	commitEvery := []int{4, 8, 15, 40}[e.prog%4]
+	switch {
+	case r < commitEvery:
+		e.ledger.ResetCalls()
+		w.L("COMMIT workers=2")
+		err := e.ps.FastCommit(2)
+		w.L("OBS %s", obsErr(err))
+		var parts []string
+		for _, c := range e.ledger.Log {
+			if c.Kind == 'S' {
+				parts = append(parts, "S:"+hx.IDStr(c.ID))
+			} else {
+				parts = append(parts, "R:"+hx.IDStr(c.ID))
+			}
+		}
+		if len(parts) == 0 {
+			parts = []string{"-"}
+		}
+		w.L("LOG %s", strings.Join(parts, " "))
+		e.ledger.ResetCalls()
+		if err != nil {
+			e.violation("C03", "fault-free commit failed: "+err.Error())
+			return true
+		}
+		e.committed = map[hx.TV]hx.TV{}
+		for k, v := range e.shadow {
+			e.committed[k] = v
+		}
+		e.committedTy = e.ty
+		e.hasCommit = true
+		fresh := hx.NewStorage(e.ledger)
+		for _, id := range e.ledger.SortedIDs() {
+			s, ok, err := fresh.Retrieve(id)
+			if err != nil || !ok {
+				w.L("REG %s=UNDECODABLE", hx.IDStr(id))
+				e.violation("C03", fmt.Sprintf("register %s does not decode after commit: %v", hx.IDStr(id), err))
+				continue
+			}
+			w.L("REG %s", atree.VerifDumpSlab(s, hx.Describe))
+		}
+		w.L("ENDREG")
+		e.checkReload("after commit")
+		e.st.Hit("persist:commit")
+		return true
+	case r < commitEvery+2 && e.hasCommit:
+		if len(e.ledger.Log) != 0 {
+			e.violation("C03", fmt.Sprintf("the ledger was written outside a commit (%d calls)", len(e.ledger.Log)))
+		}
+		w.L("CRASH")
+		rootID := e.m.SlabID()
+		e.ps = hx.NewStorage(e.ledger)
+		e.rec = hx.NewRecStorage(e.ps)
+		m, err := atree.NewMapWithRootID(e.rec, rootID, e.b)
+		if err != nil {
+			e.violation("C03", "cannot reopen map after crash: "+err.Error())
+			e.st.HarnessErr = "reopen failed"
+			return true
+		}
+		e.m = m
+		e.shadow = map[hx.TV]hx.TV{}
+		for k, v := range e.committed {
+			e.shadow[k] = v
+		}
+		e.ty = e.committedTy
+		w.L("FULL h=0 %s", hx.DumpTree(e.ps, atree.VerifMapRoot(e.m)))
+		e.checkReload("after crash")
+		e.st.Hit("persist:crash")
+		return true
+	}
+	if len(e.ledger.Log) != 0 {
+		e.violation("C03", fmt.Sprintf("the ledger was written outside a commit (%d calls)", len(e.ledger.Log)))
+		e.ledger.ResetCalls()
+	}
+	return false
+}
+
+func (e *mapEnv) checkReload(when string) {
+	if !e.hasCommit {
+		return
+	}
+	fresh := hx.NewStorage(e.ledger)
+	m, err := atree.NewMapWithRootID(fresh, e.m.SlabID(), e.b)
+	if err != nil {
+		e.violation("C03", "reload "+when+": "+err.Error())
+		return
+	}
+	if m.Count() != uint64(len(e.committed)) {
+		e.violation("C03", fmt.Sprintf("reload %s: count %d, committed content has %d", when, m.Count(), len(e.committed)))
+		return
+	}
+	n := 0
+	_ = m.IterateReadOnly(func(k, v atree.Value) (bool, error) {
+		kt, _ := k.(hx.TV)
+		vt, _ := v.(hx.TV)
+		if want, ok := e.committed[kt]; !ok || want != vt {
+			e.violation("C03", fmt.Sprintf("reload %s: %v=%v, committed content says %v", when, k, v, want))
+			return false, nil
+		}
+		n++
+		return true, nil
+	})
+	if n != len(e.committed) && len(e.st.Violations) == 0 {
+		e.violation("C03", fmt.Sprintf("reload %s: iterated %d pairs, committed content has %d", when, n, len(e.committed)))
+	}
+	if err := atree.VerifyMap(m, e.addr, e.committedTy, func(a, b atree.TypeInfo) bool { return a == b }, hx.HashInput, true); err != nil {
+		e.violation("C03", "reload "+when+": the committed registers do not form a valid map: "+err.Error())
 	}
 }
